@@ -2,7 +2,7 @@
    External behaviour (net.ParseIP, net.ResolveIPAddr, IP.String, regexp matching) is universally
    quantified; what is assumed about Go's net package appears as explicit hypotheses. *)
 From CJ Require Import Common.Base C06.Model C06.Proofs C06.IPText C06.IPTextProofs C07.Model C06.Dialed.
-From CJ Require C06.ModelIngest C06.ProofsIngest C06.Bridge07.
+From CJ Require C06.ModelIngest C06.ProofsIngest C06.Bridge07 C06.HostText.
 Module MI := CJ.C06.ModelIngest.
 
 (* An accepted covert string is the literal text of the single address the resolver returned for
@@ -347,3 +347,43 @@ Theorem C06_agrees_with_C07_admission :
       = Some {| MI.e_key := key r; MI.e_kind := kind; MI.e_covert := lit; MI.e_valid := true |}.
 Proof. exact Bridge07.bridge_announced. Qed.
 Print Assumptions C06_agrees_with_C07_admission.
+
+(* Fifth round — the host TEXT against the domain patterns.  The name the name system is asked for is exactly the text
+   the patterns were checked against (no transformation between check and resolution), and that text matches no pattern. *)
+Theorem C06_resolved_name_is_checked_text :
+  forall parse_ip resolve ip_str re_match pol s out lk,
+    parse_or_resolve parse_ip resolve ip_str re_match pol s = (Some out, lk) ->
+    exists host port, split_host_port s = Some (host, port) /\
+      snd (parse_or_resolve_tr parse_ip resolve ip_str re_match pol s) = [host] /\
+      dom_blocked re_match pol host = false.
+Proof. exact HostText.checked_text_is_resolved_name. Qed.
+Print Assumptions C06_resolved_name_is_checked_text.
+
+(* The same for the policy function with explicit text transformations nc (before the check) and nr (before the
+   resolution), whenever both places get the SAME string: every resolved name was checked and matches no pattern.
+   (nc <> nr is refuted both ways in HostText.v: fold_host_only_refuted, normalise_after_check_refuted.) *)
+Theorem C06_same_text_checked_and_resolved :
+  forall parse_ip resolve ip_str re_match nc nr pol s,
+    (forall h, nr h = nc h) ->
+    forall n, In n (HostText.pn_resolved (HostText.por_norm parse_ip resolve ip_str re_match nc nr pol s)) ->
+      In n (HostText.pn_checked (HostText.por_norm parse_ip resolve ip_str re_match nc nr pol s)) /\
+      dom_blocked re_match pol n = false.
+Proof. exact HostText.por_norm_same_text. Qed.
+Print Assumptions C06_same_text_checked_and_resolved.
+
+(* A host whose checked text matches a configured pattern is rejected and nothing is resolved. *)
+Theorem C06_pattern_match_never_resolved :
+  forall parse_ip resolve ip_str re_match nc nr pol s host port p,
+    parse_ip s = None -> split_host_port s = Some (host, port) ->
+    In p (p_dom pol) -> re_match p (nc host) = true ->
+    HostText.por_norm parse_ip resolve ip_str re_match nc nr pol s = (None, false, [], [nc host]).
+Proof. exact HostText.por_norm_match_rejected. Qed.
+Print Assumptions C06_pattern_match_never_resolved.
+
+(* The code is the instance without any transformation. *)
+Theorem C06_code_is_same_text_instance :
+  forall parse_ip resolve ip_str re_match pol s,
+    let r := HostText.por_norm parse_ip resolve ip_str re_match (fun h => h) (fun h => h) pol s in
+    (HostText.pn_out r, snd (fst (fst r)), HostText.pn_resolved r) = parse_or_resolve_tr parse_ip resolve ip_str re_match pol s.
+Proof. exact HostText.por_norm_id. Qed.
+Print Assumptions C06_code_is_same_text_instance.
